@@ -201,7 +201,7 @@ def collector_value(prog, w, chan_id_int16, shape, name):
     SV = t.variants('content_collector::State') or t.variants('State')
     info = {'shape': shape}
     if shape == 'None':
-        return Agg({0: Int(chan_id_int16, 16, False), 1: mk_option()}, 'ContentCollector'), info
+        return mk_struct(prog, 'ContentCollector', channel_id=Int(chan_id_int16, 16, False), kind=mk_option()), info
     st_kind, kind = shape.split(':')
     start_ty = {'Delivery': 'amq_protocol::protocol::basic::Deliver', 'Return': 'amq_protocol::protocol::basic::Return',
                 'Get': 'amq_protocol::protocol::basic::GetOk'}[kind]
@@ -222,7 +222,7 @@ def collector_value(prog, w, chan_id_int16, shape, name):
                      'inv': [z3.ULT(have, body_size), z3.ULT(body_size, b64(1 << 62))]})
         state = Enum(SV.index('Body'), {SV.index('Body'): Agg({0: start, 1: hdr, 2: buf})}, 'content_collector::State')
     kv = Enum(KV.index(kind), {KV.index(kind): Agg({0: state})}, 'content_collector::Kind')
-    return Agg({0: Int(chan_id_int16, 16, False), 1: mk_option(kv)}, 'ContentCollector'), info
+    return mk_struct(prog, 'ContentCollector', channel_id=Int(chan_id_int16, 16, False), kind=mk_option(kv)), info
 
 
 COLLECTOR_SHAPES = ['None', 'Start:Delivery', 'Start:Return', 'Start:Get', 'Body:Delivery', 'Body:Return', 'Body:Get']
